@@ -160,7 +160,8 @@ def gen_c04(tier, seed):
     rng = random.Random(seed * 1000003 + 4)
     cases = []; n = 0
     q = tier == "quick"
-    for layout in ([(8, 8, 1), (8, 8, 0)] + ([] if q else [(16, 16, 1), (1, 1, 1), (0, 1, 1)])):
+    # zero-sized types also in the quick tier: all their elements live at one (dangling) address, whatever the type
+    for layout in ([(8, 8, 1), (8, 8, 0), (0, 1, 1)] + ([] if q else [(16, 16, 1), (1, 1, 1)])):
         tys = [0, 1, 2, 3] if layout[0] == 8 and layout[1] == 8 else [0, 1]
         for L in ([0, 2] if q else [0, 1, 2, 3]):
             for tv in tys:
